@@ -35,7 +35,7 @@ ANCHORS = ['debian.debian_support:NativeVersion._compare',
 MUST_REACH = ['debian.debian_support:NativeVersion._compare', 'debian.debian_support:version_compare',
               'debian.debian_support:BaseVersion.__hash__']
 FLOORS = {'quick': {'nontrivial': 20000, 'monitors': {'M.pair': 100000, 'M.hash': 200, 'M.triple': 20000}},
-          'thorough': {'nontrivial': 500000, 'monitors': {'M.pair': 5000000, 'M.hash': 5000, 'M.triple': 500000}}}
+          'thorough': {'nontrivial': 500000, 'monitors': {'M.pair': 4000000, 'M.hash': 1800, 'M.triple': 500000}}}
 
 POOL = {'quick': 400, 'thorough': 2800}
 TRIPLES = {'quick': 120000, 'thorough': 3000000}
